@@ -476,7 +476,7 @@ type c51Entry struct {
 	RSA    bool
 	Class  string
 	Data   []byte `json:"-"`
-	Due    bool // a currently valid entry whose renewal is (nearly) due: background renewal may issue
+	Due    bool   // a currently valid entry whose renewal is (nearly) due: background renewal may issue
 }
 
 func (e c51Entry) key() string {
